@@ -5,7 +5,7 @@
 use crate::util::*;
 use ndarray::{Array1, Array2};
 use rateslib::dual::linalg::{dsolve, fdsolve};
-use rateslib::dual::{Dual, Dual2};
+use rateslib::dual::{Dual, Dual2, Number};
 use serde_json::{json, Value};
 
 #[derive(Clone)]
@@ -71,7 +71,12 @@ fn solve_kind(fnname: &str, kind: &str, a: &[Vec<Ent>], b: &[Ent], lsq: bool) ->
             }
         }};
     }
+    // the generic container: untagged entries are Number::F64, tagged ones Number::Dual (N1) / Number::Dual2 (N2)
+    let n1 = |e: &Ent| if e.vars.is_empty() { Number::F64(e.re) } else { Number::Dual(e.d1()) };
+    let n2 = |e: &Ent| if e.vars.is_empty() { Number::F64(e.re) } else { Number::Dual2(e.d2()) };
     match (fnname, kind) {
+        ("dsolve", "N1") => run!(n1, number_json),
+        ("dsolve", "N2") => run!(n2, number_json),
         ("dsolve", "F") => run!(|e: &Ent| e.re, |x: &f64| f64_json(*x)),
         ("dsolve", "D1") => run!(|e: &Ent| e.d1(), dual_json),
         ("dsolve", _) => run!(|e: &Ent| e.d2(), dual2_json),
@@ -83,6 +88,8 @@ fn solve_kind(fnname: &str, kind: &str, a: &[Vec<Ent>], b: &[Ent], lsq: bool) ->
 fn ent_json(e: &Ent, kind: &str) -> Value {
     match kind {
         "F" => f64_json(e.re),
+        "N1" => if e.vars.is_empty() { f64_json(e.re) } else { dual_json(&e.d1()) },
+        "N2" => if e.vars.is_empty() { f64_json(e.re) } else { dual2_json(&e.d2()) },
         "D1" => dual_json(&e.d1()),
         _ => dual2_json(&e.d2()),
     }
@@ -110,7 +117,7 @@ pub fn replay(cases: &str, seed: u64, out: &str) {
     let names = ["p", "q", "s"];
     for (ci, c) in read_ndjson(cases).iter().enumerate() {
         let rows = c["A"].as_array().unwrap();
-        let combos = [("dsolve", "F"), ("dsolve", "D1"), ("dsolve", "D2"), ("fdsolve", "F"), ("fdsolve", "D1"), ("fdsolve", "D2")];
+        let combos = [("dsolve", "F"), ("dsolve", "D1"), ("dsolve", "D2"), ("fdsolve", "F"), ("fdsolve", "D1"), ("fdsolve", "D2"), ("dsolve", "N1"), ("dsolve", "N2")];
         // every matrix through the float solvers; tagged kinds on a rotating third of them
         for (k, (f, kind)) in combos.iter().enumerate() {
             if *kind != "F" && (ci + k) % 3 != 0 {
@@ -133,7 +140,7 @@ pub fn record(seed: u64, n: usize, out: &str) {
         let lsq = i % 5 == 4;
         let nn = if lsq { 2 + r.below(5) as usize } else { 1 + r.below(8) as usize };
         let m = if lsq { nn + 1 + r.below(7) as usize } else { nn };
-        let (f, kind) = *r.pick(&[("dsolve", "F"), ("dsolve", "D1"), ("dsolve", "D2"), ("fdsolve", "F"), ("fdsolve", "D1"), ("fdsolve", "D2")]);
+        let (f, kind) = *r.pick(&[("dsolve", "F"), ("dsolve", "D1"), ("dsolve", "D2"), ("fdsolve", "F"), ("fdsolve", "D1"), ("fdsolve", "D2"), ("dsolve", "N1"), ("dsolve", "N2")]);
         let p_tag = if kind == "F" { 0.0 } else { 0.5 };
         // diagonally perturbed permutation-scrambled matrix: well conditioned, yet pivoting is forced
         let mut sigma: Vec<usize> = (0..nn).collect();
